@@ -67,6 +67,8 @@ def build(genv, s1, s2, s3, order, ce, place, grp, inc, ce2=0, ref2=0):
         env_sections.append(('w1,w2', {'C16V': 'list'}))
     elif s3 == 2:
         env_sections.append(('w*, zz', {'C16V': 'late', 'LATE': '1'}))
+    elif s3 == 3:
+        env_sections.append(('w?', {'C16V': ''}))            # a section that blanks the variable: an EMPTY value is a value
     perm = [i for i in PERMS[order] if i < len(env_sections)]
     env_sections = [env_sections[i] for i in perm]
     genv_items = {}
@@ -175,7 +177,7 @@ def build(genv, s1, s2, s3, order, ce, place, grp, inc, ce2=0, ref2=0):
 
 def c16_config(genv: int, s1: int, s2: int, s3: int, order: int, ce: int, place: int, grp: int, inc: int, ce2: int, ref2: int) -> bool:
     """
-    pre: 0 <= genv <= 2 and 0 <= s1 <= 1 and 0 <= s2 <= 1 and 0 <= s3 <= 2 and 0 <= order < 6 and 0 <= ce <= 1
+    pre: 0 <= genv <= 2 and 0 <= s1 <= 1 and 0 <= s2 <= 1 and 0 <= s3 <= 3 and 0 <= order < 6 and 0 <= ce <= 1
     pre: place == rt.S['place'] and 0 <= grp < len(GROUPS) and 0 <= inc <= 1 and 0 <= ce2 <= 1
     pre: ce2 == 0 or (grp == 0 and inc == 0)
     pre: 0 <= ref2 <= 1 and (ref2 == 0 or (grp == 0 and ce2 == 0))
@@ -186,7 +188,7 @@ def c16_config(genv: int, s1: int, s2: int, s3: int, order: int, ce: int, place:
     genv = rt.pick(genv, 3)
     s1 = rt.pick(s1, 2)
     s2 = rt.pick(s2, 2)
-    s3 = rt.pick(s3, 3)
+    s3 = rt.pick(s3, 4)
     order = rt.pick(order, 6)
     ce = rt.pick(ce, 2)
     place = rt.pick(place, len(PLACES))
